@@ -33,10 +33,15 @@ def entry_point_cases(c, rng, quick):
         if ndim > 0 or nin == 0:
             continue        # table-parameter models need structured columns: covered by C04
         for _ in range(per_model):
-            N = rng.choice([1, 2, 3])
-            nPS = rng.choice([1, N])
-            nIS = rng.choice([1, N])
-            T = rng.choice([0, 1, 1, 5, 12])
+            N = rng.choice([1, 2, 3, 3, 5, 8])
+            big = rng.random() < 0.12
+            if big:
+                N = rng.choice([263, 300, 517, 1000])      # more cells than any plausible per-processor batch
+            # parameter and input sets are cycled over the cells (cell i uses set i mod nSets): one shared set, one per
+            # cell, or a count that does not divide the number of cells
+            nPS = min(N, rng.choice([1, N, 2, 3]))
+            nIS = min(N, rng.choice([1, N, 2, 3]))
+            T = rng.choice([0, 1, 1, 5, 12]) if not big else rng.choice([1, 2, 3])
             init = 1 if name in ('GR4J', 'Lag') else rng.choice([0, 1])
             pv = []
             for (pn, d, lo, hi, nd) in params:
@@ -83,13 +88,16 @@ def entry_point_cases(c, rng, quick):
     while i < len(cl):
         p = subprocess.run([os.path.join(HARNESS, 'bin', 'cdriver'), os.path.join(OUT, 'libopenwater.so')],
                            input='\n'.join(cl[i:]) + '\n', stdout=subprocess.PIPE, stderr=subprocess.PIPE, text=True, timeout=900)
-        got = [l for l in p.stdout.split('\n') if l]
+        # only protocol lines count: several kernels print diagnostics on stdout (StorageRouting before its NaN panics,
+        # Storage 'No volumes', RatingCurvePartition), also when run through the C library
+        got = [l for l in p.stdout.split('\n') if l.startswith(('OK ', 'PANIC', 'NOMODEL', 'NOCMD', 'BAD'))]
         res_c += got[:len(cl) - i]
         if len(got) >= len(cl) - i:
             break
         res_c.append('CRASH')
         i += len(got) + 1
-    res_go = run_impl(['V ' + l for l in cl])
+    import hslib
+    res_go = hslib.run_filtered(os.path.join(HARNESS, 'bin', 'owrun'), ['V ' + l for l in cl], 'CRASH', env=GOENV)
     agree = crashes = 0
     for (name, line), rc, rg in zip(cases, res_c, res_go):
         c.count(line, nontrivial=True)
